@@ -215,4 +215,34 @@ func init() {
 		}
 		o.endBudget(r.Out[0], k.In[0], st0, fperv*(r.S[0]+r.S[1]), false)
 	})
+
+	// Sacramento. Area fractions: pctim impervious, adimp additional impervious (store adimc), the rest pervious
+	// (upper/lower zone stores; the lower free water stores count (1+side)-fold: that is the amount the code drains
+	// as total baseflow, of which 1/(1+side) reaches the channel). Water in the unit-hydrograph buffer at the end of
+	// a call is dropped by the code (D13), which only lowers the left-hand side.
+	regOracle("C10", "Sacramento", func(c *Ctx, id int, k *KCall, r *KResult, body string) {
+		if r.Status != "ok" {
+			return
+		}
+		o := newC10(c, id, k, r, body)
+		p := k.P
+		uztwm, uzfwm, lztwm, lzfsm, lzfpm, side, pctim, adimp := p[3], p[4], p[5], p[6], p[7], p[11], p[13], p[14]
+		s0 := c10State0(k, r)
+		if !o.finiteNonneg([]string{"actualET", "runoff", "imperviousRunoff", "surfaceRunoff", "baseflow", "states"},
+			r.Out[0], r.Out[1], r.Out[2], r.Out[3], r.Out[4], r.S) {
+			return
+		}
+		o.components("runoff = surfaceRunoff + baseflow", r.Out[1], r.Out[3], r.Out[4])
+		o.within("UprTensionWater", r.S[0], 0, uztwm)
+		o.within("UprFreeWater", r.S[1], 0, uzfwm)
+		o.within("LwrTensionWater", r.S[2], 0, lztwm)
+		o.within("LwrPrimaryFreeWater", r.S[3], 0, lzfpm)
+		o.within("LwrSupplFreeWater", r.S[4], 0, lzfsm)
+		held := func(s []float64) float64 {
+			return (1-pctim-adimp)*(s[0]+s[1]+s[2]+(s[3]+s[4])*(1+side)) + adimp*s[5]
+		}
+		out := addSeries(r.Out[0], r.Out[1])
+		o.prefixBudget(out, k.In[0], held(s0))
+		o.endBudget(out, k.In[0], held(s0), held(r.S), false)
+	})
 }
